@@ -10,7 +10,7 @@ use crate::payload::{Payload, PayloadStatus};
 use crate::v5::codec::{Decoded, DisconnectReasonCode, Encoded, Packet};
 use crate::v5::shared::{Ack, MqttShared};
 use crate::v5::{codec, control::Pkt, publish::Publish, publish::PublishAck};
-use crate::{MqttServiceConfig, types::packet_type};
+use crate::{MqttServiceConfig, types::QoS, types::packet_type};
 
 use super::control::{ProtocolMessage, ProtocolMessageAck};
 
@@ -39,6 +39,7 @@ where
             info: RefCell::new(PublishInfo {
                 aliases: HashMap::default(),
                 inflight: HashSet::default(),
+                pubrel: HashSet::default(),
             }),
         }),
         _t: PhantomData,
@@ -63,7 +64,16 @@ struct Inner<C> {
 
 struct PublishInfo {
     inflight: HashSet<NonZeroU16>,
+    /// `QoS` 2 publishes that are acknowledged with PUBREC and wait for PUBREL
+    pubrel: HashSet<NonZeroU16>,
     aliases: HashMap<NonZeroU16, ByteString>,
+}
+
+impl PublishInfo {
+    fn remove(&mut self, id: NonZeroU16) {
+        self.inflight.remove(&id);
+        self.pubrel.remove(&id);
+    }
 }
 
 impl<T, C, E> Service<Decoded> for Dispatcher<T, C, E>
@@ -135,13 +145,18 @@ where
 
                         // check for duplicated packet id
                         if !inner.inflight.insert(pid) {
-                            let _ = self.inner.sink.encode_packet(Packet::PublishAck(
-                                codec::PublishAck {
-                                    packet_id: pid,
-                                    reason_code: codec::PublishAckReason::PacketIdentifierInUse,
-                                    ..Default::default()
+                            let ack = codec::PublishAck {
+                                packet_id: pid,
+                                reason_code: codec::PublishAckReason::PacketIdentifierInUse,
+                                ..Default::default()
+                            };
+                            let _ = self.inner.sink.encode_packet(
+                                if publish.qos == QoS::ExactlyOnce {
+                                    Packet::PublishReceived(ack)
+                                } else {
+                                    Packet::PublishAck(ack)
                                 },
-                            ));
+                            );
                             return Ok(None);
                         }
                     }
@@ -229,8 +244,9 @@ where
                 }
             }
             Decoded::Packet(Packet::PublishRelease(pkt), size) => {
-                if self.inner.info.borrow().inflight.contains(&pkt.packet_id) {
-                    self.inner.control(ProtocolMessage::pubrel(pkt, size)).await
+                if self.inner.info.borrow().pubrel.contains(&pkt.packet_id) {
+                    let id = pkt.packet_id;
+                    self.inner.control_pkt(ProtocolMessage::pubrel(pkt, size), id.get()).await
                 } else {
                     Ok(Some(Encoded::Packet(codec::Packet::PublishComplete(
                         codec::PublishAck2 {
@@ -308,6 +324,7 @@ where
     T: Service<Publish, Response = Either<Publish, PublishAck>, Error = E>,
     C: Service<ProtocolMessage, Response = ProtocolMessageAck, Error = DispatcherError<E>>,
 {
+    let qos2 = pkt.qos() == QoS::ExactlyOnce;
     let ack = match ctx.call(svc, pkt).await.map_err(DispatcherError::Service)? {
         Either::Right(ack) => ack,
         Either::Left(pkt) => {
@@ -320,14 +337,23 @@ where
 
     if let Some(id) = NonZeroU16::new(packet_id) {
         log::trace!("Sending publish ack for {packet_id:?} id");
-        inner.info.borrow_mut().inflight.remove(&id);
         let ack = codec::PublishAck {
             packet_id: id,
             reason_code: ack.reason_code,
             reason_string: ack.reason_string,
             properties: ack.properties,
         };
-        Ok(Some(Encoded::Packet(Packet::PublishAck(ack))))
+        if qos2 && (ack.reason_code as u8) < 0x80 {
+            // packet id is in use until PUBREL is received
+            inner.info.borrow_mut().pubrel.insert(id);
+            Ok(Some(Encoded::Packet(Packet::PublishReceived(ack))))
+        } else if qos2 {
+            inner.info.borrow_mut().remove(id);
+            Ok(Some(Encoded::Packet(Packet::PublishReceived(ack))))
+        } else {
+            inner.info.borrow_mut().remove(id);
+            Ok(Some(Encoded::Packet(Packet::PublishAck(ack))))
+        }
     } else {
         Ok(None)
     }
@@ -355,7 +381,7 @@ impl<C> Inner<C> {
         let result = match self.control.call(pkt).await {
             Ok(result) => {
                 if let Some(id) = NonZeroU16::new(packet_id) {
-                    self.info.borrow_mut().inflight.remove(&id);
+                    self.info.borrow_mut().remove(id);
                 }
                 result
             }
